@@ -770,7 +770,32 @@ impl HashColumn {
 		let reindex = self.reindex.upgradable_read();
 		let existing = Self::search_all_indexes(change.key(), &tables, &reindex, log)?;
 		if let Some((table, sub_index, existing_address)) = existing {
-			self.write_plan_existing(&tables, change, log, table, sub_index, existing_address)
+			let (outcome, pending) = self.write_plan_existing(
+				&tables,
+				change,
+				log,
+				table,
+				sub_index,
+				existing_address,
+			)?;
+			if let Some(value_address) = pending {
+				// The value has moved but the current index could not take its entry (chunk
+				// full or address overflow). Grow the index until the entry fits, as
+				// `write_plan_new` does: without an entry the value would be unreachable.
+				let key = change.key();
+				let (mut tables, mut reindex) = (tables, reindex);
+				loop {
+					log::debug!(target: "parity-db", "{}: Index chunk full {}", tables.index.id, hex(key));
+					(tables, reindex) = Self::trigger_reindex(tables, reindex, self.path.as_path());
+					if !matches!(
+						tables.index.write_insert_plan(key, value_address, None, log)?,
+						PlanOutcome::NeedReindex
+					) {
+						break
+					}
+				}
+			}
+			Ok(outcome)
 		} else {
 			match change {
 				Operation::Set(key, value) => {
@@ -809,7 +834,7 @@ impl HashColumn {
 		index: &IndexTable,
 		sub_index: usize,
 		existing_address: Address,
-	) -> Result<PlanOutcome> {
+	) -> Result<(PlanOutcome, Option<Address>)> {
 		let stats = if self.collect_stats { Some(&self.stats) } else { None };
 
 		let key = change.key();
@@ -823,17 +848,21 @@ impl HashColumn {
 			stats,
 			self.ref_counted,
 		)? {
-			(Some(outcome), _) => Ok(outcome),
+			(Some(outcome), _) => Ok((outcome, None)),
 			(None, Some(value_address)) => {
 				// If it was found in an older index we just insert a new entry. Reindex won't
 				// overwrite it.
 				let sub_index = if index.id == tables.index.id { Some(sub_index) } else { None };
-				tables.index.write_insert_plan(key, value_address, sub_index, log)
+				// When the entry does not fit the caller has to grow the index and insert it.
+				Ok(match tables.index.write_insert_plan(key, value_address, sub_index, log)? {
+					PlanOutcome::NeedReindex => (PlanOutcome::NeedReindex, Some(value_address)),
+					outcome => (outcome, None),
+				})
 			},
 			(None, None) => {
 				log::trace!(target: "parity-db", "{}: Removing from index {}", tables.index.id, hex(key));
 				index.write_remove_plan(key, sub_index, log)?;
-				Ok(PlanOutcome::Written)
+				Ok((PlanOutcome::Written, None))
 			},
 		}
 	}
